@@ -36,14 +36,12 @@ AllQ(p) == UNION {SeqToSet(p.oskeys[i].qs) : i \in DOMAIN p.oskeys}
 QOf(p, S) == UNION {SeqToSet(p.oskeys[i].qs) : i \in S}
 IsPress(p) == p.variant \in {"press", "press-pcancel"}
 IsPcancel(p) == p.variant \in {"press-pcancel", "release-pcancel"}
-LingerBound(p) == (p.T + p.red + 3) * 6
 
 MonInit(p) ==
   [p |-> p,
    held |-> {},          \* indices of one-shot keys physically down (by arrival)
    chain |-> {},         \* indices of one-shot keys tapped/pressed since the activation began
    el |-> 0,             \* ticks since the last one-shot press arrived (capped)
-   sinceIn |-> 0,        \* ticks since the last input of any kind (capped)
    sharp |-> FALSE,      \* the activation chain is in the sharp zone
    gapIn |-> 0,          \* inputs arrived since the last tick
    used |-> FALSE,       \* an other key was pressed since the activation (press variants)
@@ -59,7 +57,7 @@ MonIn(m, r) ==
   ELSE
     LET p == m.p
         i == OsIdx(p, r.c)
-        m0 == [m EXCEPT !.quiet = 0, !.gapIn = @ + 1, !.sinceIn = 0]
+        m0 == [m EXCEPT !.quiet = 0, !.gapIn = @ + 1]
         inSync == m.gapIn = 0
     IN IF i # 0
        THEN IF r.e = "d"
@@ -133,14 +131,14 @@ MonTick(m, out, idle, cb) ==
               THEN Fail(m1, "C06 O1/O3: the one-shot output is not applied while the one-shot is active")
               ELSE IF sharpNow /\ T >= 1 + p.T /\ m.held = {} /\ (qsChain \cap m1.down) # {}
               THEN Fail(m1, "C06 O3: the one-shot did not expire at its timeout")
-              ELSE IF m.held = {} /\ m.sinceIn >= LingerBound(p) /\ m1.pend = <<>> /\ (AllQ(p) \cap m1.down) # {}
+              \* idle twice in a row with no input in between: nothing is pending inside kanata
+              ELSE IF m.held = {} /\ idle /\ m.lastIdle /\ m.gapIn = 0 /\ m1.pend = <<>> /\ (AllQ(p) \cap m1.down) # {}
               THEN Fail(m1, "C06 O7: a one-shot output lingers")
               ELSE IF idle /\ m1.pend # <<>>
               THEN Fail(m1, "C06: a pressed key was lost")
               ELSE m1
         expired == T >= 1 + p.T /\ m.held = {} /\ sharpNow
-    IN [m2 EXCEPT !.el = OMin(T, p.T + 2), !.sinceIn = OMin(m.sinceIn + 1, LingerBound(p)),
-                  !.gapIn = 0, !.lastIdle = idle,
+    IN [m2 EXCEPT !.el = OMin(T, p.T + 2), !.gapIn = 0, !.lastIdle = idle,
                   !.ended = IF expired THEN "yes" ELSE m2.ended,
                   !.chain = IF expired THEN {} ELSE m2.chain,
                   !.quiet = IF out = <<>> THEN OMin(m2.quiet + 1, p.red + 1) ELSE 0]
@@ -148,7 +146,7 @@ MonTick(m, out, idle, cb) ==
 RECURSIVE MonSilent(_, _, _, _)
 MonSilent(m, n, idle, cb) ==
   IF n = 0 \/ m.err # "" THEN m
-  ELSE IF m.sinceIn >= LingerBound(m.p) /\ m.el >= m.p.T + 2 /\ m.pend = <<>> /\ m.lastIdle = idle
+  ELSE IF m.el >= m.p.T + 2 /\ m.pend = <<>> /\ m.lastIdle = idle /\ idle
           /\ m.quiet > m.p.red /\ m.gapIn = 0 /\ (m.held # {} \/ (AllQ(m.p) \cap m.down) = {})
   THEN m
   ELSE MonSilent(MonTick(m, <<>>, idle, cb), n - 1, idle, cb)
